@@ -123,6 +123,10 @@ def gen(rng, thorough):
         if rng.random() < 0.04:
             c['idx'][-1] = w
         c['ctype'] = rng.choice(['linear', 'linear', 'nonlinear', 'xor', 'and', 'or', 'custom'])
+        if rng.random() < 0.2 and all(i < w for i in c['idx']):
+            # the sources selected by a boolean column mask (numpy semantics: the columns where the mask is true, in column order)
+            c['idx'] = sorted(set(c['idx']))
+            c['mask'] = rng.choice(['array', 'list'])
     elif t == 'seq':
         ops, cur = [], w
         for _ in range(rng.randint(1, 6)):
@@ -291,7 +295,12 @@ def eval_comb(ctx, c, oracle_only, b):
     w = X.shape[1]
     ct = c['ctype']
     kw = {'combination_type': ct} if ct in ('linear', 'nonlinear') else {'combination_function': {'xor': cc._xor, 'and': cc._and, 'or': cc._or, 'custom': custom_mod7}[ct]}
-    out, res = outcome(lambda: cc.generate_combinations(X, list(c['idx']), **kw))
+    sel = list(c['idx'])
+    if c.get('mask'):
+        sel = [i in c['idx'] for i in range(w)]
+        sel = np.array(sel) if c['mask'] == 'array' else sel
+        ctx.count('comb:selection-by-boolean-mask')
+    out, res = outcome(lambda: cc.generate_combinations(X, sel, **kw))
     ctx.count('outcome:' + out)
     ctx.count('comb:' + ct)
     valid = all(0 <= i < w for i in c['idx']) and (ct not in ('xor', 'and', 'or') or len(c['idx']) >= 2)
@@ -317,6 +326,8 @@ def eval_comb(ctx, c, oracle_only, b):
     if res.shape != (X.shape[0], w + 1) or not np.array_equal(res[:, :w], X0) or got != want:
         ctx.oracle_fail('comb-function', f'{short(c)}: appended column {got[:8]} is not the {ct} combination {want[:8]} of columns {c["idx"]} '
                         f'(or the original columns changed)', c)
+    if c.get('mask'):
+        info = [c['idx']] + info[1:] if info[0] == [int(i in c['idx']) for i in range(w)] else info      # the mask is recorded as given
     if info != [c['idx'], w, name]:
         ctx.oracle_fail('comb-info', f'{short(c)}: dataset_info records {info}, expected {[c["idx"], w, name]}', c)
     if ct == 'linear' and not oracle_only:
